@@ -103,7 +103,9 @@ func (c14) Cases(tier string, emit func(string, interface{})) {
 
 var c14Wrappers = []func(call string) string{
 	func(c string) string { return c },
-	func(c string) string { return "one of:\n    c1:\n        " + c + "\n    c2:\n        step\n    c3:\n        return ok" },
+	func(c string) string {
+		return "one of:\n    c1:\n        " + c + "\n    c2:\n        step\n    c3:\n        return ok"
+	},
 	func(c string) string { return "if x:\n    " + c },
 	func(c string) string { return "if x:\n    step\nelse:\n    " + c },
 	func(c string) string { return "for each i:\n    " + c },
